@@ -92,6 +92,16 @@ pub fn op_any<A: HC, const K: usize, S: HS>(op: &str, a: &KArgs<A>) -> R<String>
         "pushl" => mk::<A, K, S>(a.v).pushl(item::<A>(a.n)).bs.to_u128().to_string(),
         "pushr" => mk::<A, K, S>(a.v).pushr(item::<A>(a.n)).bs.to_u128().to_string(),
         "hash" => hash_events(&mk::<A, K, S>(a.v)),
+        "hasheq" => {
+            // a k-mer hashes like the slice it compares equal to
+            let k = mk::<A, K, S>(a.v);
+            let x = a.slice.unwrap();
+            if k == x {
+                format!("eq:true hash:{}", hash_events(&k) == hash_events(x))
+            } else {
+                "eq:false".to_string()
+            }
+        }
         "eqk" => {
             let x = mk::<A, K, S>(a.v);
             let y = mk::<A, K, S>(a.v2);
@@ -328,6 +338,14 @@ pub fn query<A: HC>(q: &str, t: &mut Toks) -> R<String> {
                     return eval_s::<A, _>(&s, &mut |x| {
                         let a = KArgs::<A> { v: 0, v2: 0, n: 0, text: String::new(), pairing: String::new(), slice: Some(x), seq: None };
                         A::kdispatch(&op, k, &st, &a)
+                    });
+                }
+                "hasheq" => {
+                    a.v = val(t)?;
+                    let s = parse_s(t)?;
+                    return eval_s::<A, _>(&s, &mut |x| {
+                        let a2 = KArgs::<A> { v: a.v, v2: 0, n: 0, text: String::new(), pairing: String::new(), slice: Some(x), seq: None };
+                        A::kdispatch(&op, k, &st, &a2)
                     });
                 }
                 "eq" => {
